@@ -33,7 +33,12 @@ def run_file(path: str, repo: str, root: str, cache: str) -> int:
             print("  source: %s" % json.dumps(v["source"]))
         cx = v.get("counterexample")
         if cx:
-            print("  counterexample: %s" % json.dumps(cx)[:400])
+            print("  counterexample: %s" % json.dumps({k: cx[k] for k in cx if k != "replayed_natively_on_extracted_real_function"})[:400])
+            nr = cx.get("replayed_natively_on_extracted_real_function")
+            if nr:
+                print("  replayed natively (harness run as a test on these values, on the function text extracted from /repo): reproduced=%s %s" % (nr.get("reproduced"), nr.get("panic", "")))
+                if nr.get("reproduced"):
+                    rc = 1
             sc = SCENARIOS.get(cx.get("scenario"))
             if sc:
                 r = sc(cx, repo, root, cache)
